@@ -146,7 +146,8 @@ OVERLAYS = {
     "O_scalar_over_dict": {"FR": {"positions": 7}},
     "O_dict_over_scalar": {"IT": {"country": {"x": 1}}, "DE": {"positions": {"bank_code": [0, 8]}}},
 }
-OVERLAY_NAMES = ["00_first.json", "Generated.json", "h_between.json", "zz_last.json"]
+# "zz-site.json" < "zz.json" in file-name order ('-' < '.'), but "zz" < "zz-site" by stem
+OVERLAY_NAMES = ["00_first.json", "Generated.json", "h_between.json", "zz-site.json", "zz.json"]
 
 
 def bundled_docs():
@@ -374,7 +375,7 @@ def iban_loader_shard(args):
                 part.violation(sig, {"kind": "c18overlay", "files": files, "overlay": last}, exp, obs)
             part.stat("overlay_differentials")
     if chosen == ("generated.json", "overwrite.json", "O_add"):
-        part.sample({"iban_files": ["generated.json", "overwrite.json", "zz_last.json <- O_add"],
+        part.sample({"iban_files": ["generated.json", "overwrite.json", "zz.json <- O_add"],
                      "listing_orders": 6})
     return part.done()
 
@@ -442,7 +443,7 @@ def bank_loader_shard(args):
     docs = v2_documents(tier)
     for i in range(lo, hi):
         v2 = docs[i]
-        for v2name in ("00_a.v2.json", "m_b.v2.json", "zz_c.v2.json"):
+        for v2name in ("00_a.v2.json", "m_b.v2.json", "zz_c.v2.json", "manual_y-a.v2.json"):
             files = {"generated_x.json": L1, "manual_y.json": L2, v2name: v2}
             listings = list(itertools.permutations(sorted(files))) if i % 5 == 0 else [
                 sorted(files, reverse=True)]
